@@ -159,11 +159,15 @@ def match_known(known, pid, sig):
 # shrinking (delta debugging over the explicit lists of a case)
 # ---------------------------------------------------------------------------
 
+LAST_SHRINK_ERROR = [None]
+
+
 def _still(mod, sim, case, sig):
     st = Stats()
     try:
         res = run_case(mod, sim, case, st)
     except Exception:
+        LAST_SHRINK_ERROR[0] = traceback.format_exc()
         return False
     return any(s == sig for s, _m in res)
 
@@ -334,6 +338,8 @@ def run_check(pid, tier, master_seed, jobs, n_override=None, wall_override=None)
                     small, ok = shrink(mod, sim, case, sig)
                 except Exception:
                     small, ok = case, False
+                if not ok and LAST_SHRINK_ERROR[0]:
+                    lines.append('  (replay in the driver process failed: %s)' % LAST_SHRINK_ERROR[0].strip().splitlines()[-1])
                 path = write_replay(pid, sig, seed, small, msg, True, ok)
                 lines.append('VIOLATION property=%s replay=%s' % (pid, path))
                 lines.append('  signature: %s' % sig)
